@@ -307,6 +307,7 @@ package flags
 
 //@ func (p *Parser) parseLong(s *parseState, name string, argument *string) (err error)
 //@   props C01 C02 C04 C07
+//@   traced
 //@   requires p != nil && s != nil
 //@   ensures[C07,C04] s.lookup.longNames[name] == nil ==> isTyped(err, ErrUnknownFlag) && ncalls(Option.Set) == old(ncalls(Option.Set)) && same(s.args, old(s.args)) && s.arg == old(s.arg)
 //@   like Parser.parseOption(p, s, name, s.lookup.longNames[name], !s.lookup.longNames[name].OptionalArgument, argument) when s.lookup.longNames[name] != nil
@@ -328,6 +329,8 @@ package flags
 
 //@ func (p *Parser) parseShort(s *parseState, optname string, argument *string) (err error)
 //@   props C01 C02 C04 C07
+//@   traced
+//@   nomerge
 //@   requires p != nil && s != nil
 //@   let on := ite(argument == nil, fst(p.splitShortConcatArg(s, optname)), optname)
 //@   let a := ite(argument == nil, snd(p.splitShortConcatArg(s, optname)), argument)
@@ -429,17 +432,38 @@ package flags
 //@   ensures is(err, *Error) ==> as(err, *Error) != nil
 //@   ensures len(r) <= len(args)
 
+// okResult: an option-parsing result after which the argument loop goes on.
+//@ pure func okResult(p *Parser, r error) bool = r == nil || (isTyped(r, ErrUnknownFlag) && (p.Options&IgnoreUnknown != 0 || p.UnknownOptionHandler != nil))
+
 //@ func (p *Parser) ParseArgs(args []string) (rest []string, err error)
 //@   props C03 C04 C07 C09
-//@   requires p != nil && p.Command != nil
+//@   requires p != nil
 //@   requires is(p.internalError, *Error) ==> as(p.internalError, *Error) != nil
 //@   let e0 := ncalls(Commander.Execute)
 //@   let h0 := ncalls(Parser.CommandHandler)
 //@   let pe0 := ncalls(Parser.printError)
+//@   let cr0 := ncalls(parseState.checkRequired)
+//@   let pl0 := ncalls(Parser.parseLong)
+//@   let ps0 := ncalls(Parser.parseShort)
+//@   let compl := os.Getenv("GO_FLAGS_COMPLETION") != ""
 //@   loop 2 invariant s != nil && s.command != nil
 //@   loop 2 invariant is(s.err, *Error) ==> as(s.err, *Error) != nil
+//@   loop 2 invariant forall(k, old(ncalls(Parser.parseLong)), ncalls(Parser.parseLong), okResult(p, callres(Parser.parseLong, k, 0)))
+//@   loop 2 invariant forall(k, old(ncalls(Parser.parseShort)), ncalls(Parser.parseShort), okResult(p, callres(Parser.parseShort, k, 0)))
 //@   loop 2 decreases len(s.args)
 //@   loop 3 invariant s != nil && s.command != nil
 //@   loop 3 invariant is(s.err, *Error) ==> as(s.err, *Error) != nil
 //@   ensures[C09] ncalls(Commander.Execute) + ncalls(Parser.CommandHandler) <= e0 + h0 + 1
-//@   ensures[C04] os.Getenv("GO_FLAGS_COMPLETION") == "" ==> ncalls(Parser.printError) == pe0 + ite(err != nil && p.internalError == nil, 1, 0)
+//@   ensures[C09] compl || p.internalError != nil ==> ncalls(Commander.Execute) == e0 && ncalls(Parser.CommandHandler) == h0
+//@   ensures[C09] ncalls(Commander.Execute) == e0 + 1 ==> err == callres(Commander.Execute, e0, 0) && (err == nil ==> same(rest, callarg(Commander.Execute, e0, 1)))
+//@   ensures[C09] ncalls(Parser.CommandHandler) == h0 + 1 ==> err == callres(Parser.CommandHandler, h0, 0) && (err == nil ==> same(rest, callarg(Parser.CommandHandler, h0, 1)))
+//@   ensures[C09] ncalls(Commander.Execute) + ncalls(Parser.CommandHandler) == e0 + h0 + 1 ==> ncalls(parseState.checkRequired) == cr0 + 1 && callres(parseState.checkRequired, cr0, 0) == nil
+//@   ensures[C09] ncalls(Commander.Execute) == e0 + 1 ==> calltime(parseState.checkRequired, cr0) < calltime(Commander.Execute, e0)
+//@   ensures[C09] ncalls(Parser.CommandHandler) == h0 + 1 ==> calltime(parseState.checkRequired, cr0) < calltime(Parser.CommandHandler, h0)
+//@   ensures[C09,C07] ncalls(Commander.Execute) + ncalls(Parser.CommandHandler) == e0 + h0 + 1 ==> forall(k, pl0, ncalls(Parser.parseLong), okResult(p, callres(Parser.parseLong, k, 0))) && forall(k, ps0, ncalls(Parser.parseShort), okResult(p, callres(Parser.parseShort, k, 0)))
+//@   ensures[C04,C07] forall(k, pl0, ncalls(Parser.parseLong), !okResult(p, callres(Parser.parseLong, k, 0)) ==> err == callres(Parser.parseLong, k, 0))
+//@   ensures[C04,C07] forall(k, ps0, ncalls(Parser.parseShort), !okResult(p, callres(Parser.parseShort, k, 0)) ==> err == callres(Parser.parseShort, k, 0))
+//@   ensures[C04] ncalls(parseState.checkRequired) == cr0 + 1 && callres(parseState.checkRequired, cr0, 0) != nil ==> err == callres(parseState.checkRequired, cr0, 0)
+//@   ensures[C04] !compl ==> ncalls(Parser.printError) == pe0 + ite(err != nil && p.internalError == nil, 1, 0)
+//@   ensures[C04] !compl && err != nil && p.internalError == nil ==> callarg(Parser.printError, pe0, 1) == err
+//@   ensures[C19] p.internalError != nil ==> err == p.internalError && rest == nil
